@@ -1164,9 +1164,9 @@ class HTMLDocument:
             and isinstance(content[0], Tag)
             and cast(Tag, content[0]).name == "html"
         ):
-            html = cast(Tag, content[0])
+            # Update the attributes of the tagified copy, not of the caller's <html> tag.
+            html = cast(Tag, content[0]).tagify()
             html.attrs.update(**self._html_attr_args)
-            html = html.tagify()
             html = HTMLDocument._hoist_head_content(html, lib_prefix, include_version)
             return html
 
